@@ -52,6 +52,7 @@ def units(tier):
     for op1 in FLOAT_OPS:
         us.append({"shape": "floats", "op1": op1})
     us.append({"shape": "slices"})
+    us.append({"shape": "seqs"})
     if tier == "thorough":
         for op1 in D3OPS:
             for op2 in D3OPS:
@@ -309,6 +310,8 @@ def run_unit(unit, tier):
         return run_names(r)
     if unit["shape"] == "slices":
         return run_slices(r)
+    if unit["shape"] == "seqs":
+        return run_seqs(r)
     if unit["shape"] == "floats":
         # operators are not associative on floats: every two-operator tree over the arithmetic operators on float contexts
         cs = [(c,) + mk_ctx(c) for c in [{"a": a, "b": b, "c": c_} for a in FLOATS for b in FLOATS for c_ in FLOATS]]
@@ -333,6 +336,27 @@ def run_unit(unit, tier):
         check_tree(t, cs, r)
         if len(r.samples) < 2:
             r.sample({"tree": X.show(t), "contexts": len(cs)})
+    return r
+
+
+def run_seqs(r):
+    """operand order matters for sequences: + concatenates, * repeats, comparisons order - with str, bytes and list values in the context
+    and a constant of the same type (or a repeat count) on either side, one and two operators deep"""
+    A, B = ["this", "a"], ["this", "b"]
+    K2 = ["k", 2]
+    n = 0
+    for const, vals in (("ab", ["", "x", "yz"]), (b"\x01\x02", [b"", b"x", b"yz"]), ([1, 2], [[], [7], [8, 9]])):
+        Kc = ["k", const]
+        cs = [(c,) + mk_ctx(c) for c in [{"a": a, "b": b, "c": 2} for a in vals for b in vals]]
+        one = [["bin", "+", Kc, A], ["bin", "+", A, Kc], ["bin", "+", A, B], ["bin", "*", K2, A], ["bin", "*", A, K2], ["bin", "*", Kc, ["path", ["_", "c"]]],
+               ["bin", "*", ["path", ["_", "c"]], Kc]]
+        one += [["bin", op, l, rr] for op in ("==", "!=", "<", "<=", ">", ">=") for l, rr in ((Kc, A), (A, Kc), (A, B))]
+        two = [["bin", "+", Kc, t] for t in one[:7]] + [["bin", "+", t, Kc] for t in one[:7]] + [["bin", "+", t, B] for t in one[:7]] + [["bin", "+", B, t] for t in one[:7]] \
+            + [["bin", "*", K2, t] for t in one[:3]] + [["bin", "*", t, K2] for t in one[:3]] + [["bin", "==", t, ["bin", "+", B, A]] for t in one[:3]]
+        for t in one + two:
+            check_tree(t, cs, r)
+            n += 1
+    r.sample({"tree": "sequence contexts (str, bytes, list)", "trees": n})
     return r
 
 
